@@ -83,6 +83,22 @@ CHECKS = {
         "ipaddress. Masks with more than 3 stray bits outside the two 12-bit windows are not enumerated.",
         "DESIGN.md 4/C05",
     ),
+    "C06": (
+        "exploration",
+        "bounded-exhaustive enumeration per exported class (ports, protocols, options, wildcards, "
+        "addresses, group members, address groups, remarks, ACEs, ACE groups, ACLs, config-level "
+        "functions) with a parse-render-parse fixed-point oracle and data() equality",
+        "Native input: X(l1).line == l1 and X(l1).data() == X(input).data(); foreign spelling "
+        "(classification from the generator): stable from the first re-parse and same meaning by "
+        "the independent reader. Domains: all port expressions x names x 16 configurations, 256 "
+        "protocols + names x platform x switches, option token lists <=3, ~400 masks x 3 bases, all "
+        "address spellings incl. members, address groups (<=3 members x numbering x 4 indents), "
+        "tricky remark texts, the deviation-bounded ACE space, item lists <=2/3 x 4 indent/name/"
+        "group_by variants for Acl and AceGroup, standard ACLs, acls()/aces()/addrgroups() on the "
+        "rendered text.",
+        "Trusted: generator classification native/foreign; readers for the meaning of foreign inputs.",
+        "DESIGN.md 4/C06",
+    ),
     "C08": (
         "model_checking",
         "complete enumeration of operator x operand products against the set definitions, all "
